@@ -18,12 +18,16 @@ LAYOUTS = {
     "nested_later_line": ["subprocess.Popen('ls',", "                 shell=True, env=pickle.loads(blob))"],
     "nested_three": ["subprocess.call(cmd,", "                input=pickle.loads(b),", "                shell=True)"],
     # rules whose registered NAME contains capitals (seeded change C02-m4 lower-cased the queried name only)
+    # plugins whose published name differs from the name of the function that implements them (B324 hashlib_insecure_functions / hashlib, B508 snmp_insecure_version /
+    # snmp_insecure_version_check, B509 snmp_weak_cryptography / snmp_crypto_check): seeded change C02-m9 resolved nosec names through the function names
+    "hash_md5": ["h = hashlib.md5(", "    data) or subprocess.Popen(c, shell=True)"],
+    "snmp": ["c = pysnmp.hlapi.CommunityData('public',", "    mpModel=0) or pysnmp.hlapi.UsmUserData('u', 'a') or subprocess.Popen(c, shell=True)"],
     "et_parse": ["t = xml.etree.cElementTree.parse(", "    src) or xml.etree.ElementTree.parse(src) or subprocess.Popen(c, shell=True)"],
 }
 # the test IDs each layout triggers (for targeted two-comment enumeration)
 LAYOUT_IDS = {"one_line": ["B101", "B602", "B607"], "four_lines": ["B101", "B602", "B607"], "nested_later_line": ["B602", "B607", "B301"],
               "nested_three": ["B602", "B301"], "password_kw": ["B106", "B104"], "call_stmt": ["B602", "B607"], "str_in_dict": ["B105", "B108"],
-              "et_parse": ["B313", "B314", "B602"]}
+              "et_parse": ["B313", "B314", "B602"], "hash_md5": ["B324", "B602"], "snmp": ["B508", "B509", "B602"]}
 PRELUDE = ["import subprocess", "import pickle"]
 
 TESTS_TEXTS = [
@@ -63,12 +67,23 @@ def spec_names(comment, registry):
 
 
 def registry_maps():
+    """IDs and documented names -> ID, read from what bandit PUBLISHES rather than from the lookup tables the nosec parser itself uses (seeded change C02-m9
+    keyed `plugins_by_name` by the check function's __name__): plugin names are the entry-point names of setup.cfg, their IDs the `_test_id` of the function the
+    entry point loads; blacklist names and IDs come from the rule tables."""
+    import importlib, benv
     from bandit.core import extension_loader as el
     m = el.MANAGER
     ids = set(m.plugins_by_id) | set(m.blacklist_by_id) | set(m.builtin)
-    names = {n: p.plugin._test_id for n, p in m.plugins_by_name.items()}
-    for n, b in m.blacklist_by_name.items():
-        names.setdefault(n, b["id"])
+    names = {}
+    for name, target in benv.entry_points_from_setup_cfg(C.REPO).get("bandit.plugins", []):
+        mod, _, fn = target.partition(":")
+        try:
+            names[name] = getattr(importlib.import_module(mod), fn)._test_id
+        except Exception:
+            pass
+    for rules in m.blacklist.values():
+        for r in rules:
+            names.setdefault(r["name"], r["id"])
     return {"ids": ids, "names": names}
 
 
@@ -123,6 +138,34 @@ def build_cases(res, rng, thorough):
                         if not thorough and rng.random() > 0.35:
                             continue
                         cases.append((lay, {base + i: a, base + j: b}, "two-comments"))
+    # every published plugin name whose check fires on these layouts, alone and next to another valid test (C02-m9: names that differ from the function's
+    # __name__ were no longer resolved; alone that still withheld — as a bare nosec —, next to another test it did not)
+    reg_names = registry_maps()["names"]
+    by_id = {}
+    for nme, tid in reg_names.items():
+        by_id.setdefault(tid, []).append(nme)
+    for lay, ids in LAYOUT_IDS.items():
+        base = len(PRELUDE)
+        for tid in ids:
+            for nme in by_id.get(tid, []):
+                for ln in range(len(LAYOUTS[lay])):
+                    if not thorough and rng.random() > 0.5:
+                        continue
+                    cases.append((lay, {base + ln: "# nosec " + nme}, "by-name"))
+                    cases.append((lay, {base + ln: "# nosec B999x, " + nme}, "by-name-mixed"))
+                    cases.append((lay, {base + ln: "# nosec %s, %s" % (rng.choice([i for i in ids if i != tid] or ["B101"]), nme)}, "by-name-mixed"))
+    # nosec text inside a string literal is inert — also on the interior lines of a multi-line string and after a backslash continuation, inside the line span
+    # of a flagged expression (seeded change C02-m10: a tokenizer-free fast path took `# ... nosec` on a quote-free line for a comment)
+    T3 = '"' * 3
+    ML_STRINGS = [
+        ['subprocess.Popen(' + T3, 'set -e', '# nosec', 'ls -l %s', T3 + ' % d, shell=True)'],
+        ['subprocess.Popen(' + T3, 'tar xf a.tar  # nosec B602, B607', T3 + ', shell=True)'],
+        ["q = '''SELECT a", '  FROM t  -- # nosec', "  WHERE b = %s''' % v"],
+        ["cur.execute('SELECT a FROM t \\", '  # nosec B608 \\', "  WHERE b = ' + v)"],
+        ['assert pickle.loads(' + T3, '# nosec', '#nosec B301', T3 + ')'],
+    ]
+    for ml in ML_STRINGS:
+        cases.append(("raw", {-2: ml}, "string-literal-multiline"))
     # nosec text inside a string literal is inert
     cases.append(("one_line", {-1: 's = "# nosec"'}, "string-literal"))
     cases.append(("four_lines", {-1: "s = '''# nosec B101'''"}, "string-literal"))
@@ -130,6 +173,8 @@ def build_cases(res, rng, thorough):
 
 
 def render(lay, cm):
+    if -2 in cm:
+        return "\n".join(list(PRELUDE) + cm[-2] + ["done = 1"]) + "\n", {}
     lines = list(PRELUDE) + list(LAYOUTS[lay]) + ["done = 1", "z = 2"]
     out = []
     if -1 in cm:
